@@ -116,8 +116,10 @@ theorem Step.handleMq (S : Sites Sn Mq) (g : Gw) (p : MqPkt) : Step Sn Mq E g (g
     · exact Step.refl g
   · exact Step.snSend g _ none (S.unsuback _)
   · split
-    · exact Step.refl g
-    · exact Step.snSend g _ none S.pingresp
+    · exact Step.of_eq rfl rfl rfl
+    · split
+      · exact Step.refl g
+      · exact Step.snSend g _ none S.pingresp
   · exact Step.handleBrokerPublish S g _ _ _ _ _ _
   · split
     · split
@@ -137,9 +139,24 @@ theorem Step.fireTx (S : Sites Sn Mq) (g : Gw) (id : Nat) : Step Sn Mq E g (g.fi
     exact Step.txExpire S g t (getTx_mem h)
   · exact Step.refl g
 
+theorem Step.pingBroker (S : Sites Sn Mq) (g : Gw) : Step Sn Mq E g g.pingBroker := by
+  unfold Gw.pingBroker
+  refine Step.trans ?_ (Step.mqttSend _ _ S.mqPingreq)
+  exact Step.of_eq rfl rfl rfl
+
+theorem Step.keepBrokerAlive (S : Sites Sn Mq) (g : Gw) : Step Sn Mq E g g.keepBrokerAlive := by
+  unfold Gw.keepBrokerAlive
+  split
+  · exact Step.refl g
+  · split
+    · split
+      · exact Step.refl g
+      · exact Step.pingBroker S g
+    · exact Step.pingBroker S g
+
 theorem Step.firePing (S : Sites Sn Mq) (g : Gw) (i : Nat) : Step Sn Mq E g (g.firePing i) := by
   unfold Gw.firePing
-  refine Step.trans ?_ (Step.mqttSend _ _ S.mqPingreq)
+  refine Step.trans ?_ (Step.pingBroker S _)
   exact Step.of_eq rfl rfl rfl
 
 theorem Step.dropPinger (g : Gw) (i : Nat) : Step Sn Mq E g (g.dropPinger i) := Step.of_eq rfl rfl rfl
@@ -205,7 +222,7 @@ theorem Step.handleEvent (S : Sites Sn Mq) (g : Gw) (ev : Event)
   · rename_i bytes
     split
     · rename_i h p hdec
-      refine Step.handleSn S g p (hin bytes h p rfl hdec) ?_
+      refine Step.trans (Step.handleSn S g p (hin bytes h p rfl hdec) ?_) (Step.keepBrokerAlive S _)
       intro e
       exact hd ⟨h, by rw [hdec, e]⟩
     · exact Step.fail g _
